@@ -6,7 +6,7 @@ VER = os.path.dirname(os.path.dirname(os.path.abspath(__file__)))
 assert subprocess.run(['git', '-C', '/repo', 'status', '--porcelain'], capture_output=True, text=True).stdout.strip() == '', '/repo not clean'
 for x in sys.argv[1:]:
     for v in 'ABCD':
-        d = f'/tmp/wt5-{x}/SEEDED/{v}'
+        d = f'/tmp/wt{os.environ.get("BENIGN_WT", "5")}-{x}/SEEDED/{v}'
         if not os.path.exists(os.path.join(d, 'patch.diff')):
             print(x, v, 'missing'); continue
         r = subprocess.run(['git', '-C', '/repo', 'apply', os.path.join(d, 'patch.diff')], capture_output=True, text=True)
@@ -25,7 +25,7 @@ for x in sys.argv[1:]:
         machinery = sorted(k for k, (c, _) in det.items() if c not in (0, 1))
         build_failed = 'BUILD FAILED' in out
         print(f'{x}{v}: suite_ok={suite_ok} alarms={alarms} machinery={machinery} build_failed={build_failed}', flush=True)
-        dst = os.path.join(VER, 'benign', f'{x}{v}')
+        dst = os.path.join(VER, 'benign', f'{os.environ.get("BENIGN_PREFIX", "")}{x}{v}')
         os.makedirs(dst, exist_ok=True)
         for f in ('patch.diff', 'NOTES.md'):
             if os.path.exists(os.path.join(d, f)): shutil.copy(os.path.join(d, f), dst)
